@@ -287,10 +287,10 @@ PLAN = {
         kani=klex_suite('K-lex progress and tiling', SPEC_KINDS, ['B1', 'B2', 'B5', 'E1', 'S1', 'S2', 'S3', 'U1', 'Q1', 'Q2', 'Q3', 'Q4', 'O2'],
                         covers=['end of input reached', 'token produced', 'token after a skipped region'],
                         bounded=BOUND_NOTE % 'B1, B2, B5, E1, S1, S2, U1, Q1, O2'),
-        technique='Verus proof that Iterator::next tiles the input for every lex satisfying the trait contract LEX; Verus proof (V-lex), for all inputs, that the code generated for the callback-free corpus definitions satisfies LEX and terminates (contracts on every state function / the state-machine loop, decreases measures); bounded model checking (Kani) of LEX and of the skip-only gaps for the rest of the corpus',
+        technique='Verus proof that Iterator::next tiles the input for every lex satisfying the trait contract LEX; Verus proof (V-lex), for all inputs, that the code generated for 33 corpus definitions (callbacks under an assumed callback contract) satisfies LEX and terminates (contracts on every state function / the state-machine loop, decreases measures); bounded model checking (Kani) of LEX and of the skip-only gaps for the rest of the corpus',
         level_text='Proved for every token type whose lex meets LEX: each item starts at or after the previous end, is non-empty and inside the source, None leaves an empty span at the end. '
-                   'LEX itself (non-empty items, None exactly at end of input, termination of every attempt) is PROVED for all inputs for the generated code of 28 corpus definitions '
-                   '(tail-call generator: all 28; state-machine generator: 22) and checked bounded on the rest; that gaps consist of skip matches only is checked bounded (specification chains skips).',
+                   'LEX itself (non-empty items, None exactly at end of input, termination of every attempt) is PROVED for all inputs for the generated code of 33 corpus definitions '
+                   '(tail-call generator: all 33; state-machine generator: 24) and checked bounded on the rest; that gaps consist of skip matches only is checked bounded (specification chains skips).',
         level_note='The clause "no definition with an empty-matching pattern is accepted" is not decided (Graph::new / regex-automata out of reach). The quantifier over definitions is a corpus, not all definitions.',
         design_ref='DESIGN.md section 3 (C03)',
         explanation='LEX contract on Logos::lex, proved-from in V-src (Lexer::next, SpannedIter::next), checked-against in K-lex',
